@@ -113,7 +113,9 @@ def sdu_op(r, names):
 def gr_op(r, names):
     i = len(names)
     names.append(i)
-    return "gr im%d %d %d %d %d" % (i, r.choice([2, 3, 5]), r.choice([2, 4]), r.choice([1, 3]), r.randrange(1, 30000))
+    # number type and an optional palette (a palette has a number-type element of its own)
+    return "gr im%d %d %d %d %d %d %d" % (i, r.choice([2, 3, 5]), r.choice([2, 4]), r.choice([1, 3]), r.randrange(1, 30000),
+                                          r.choice([21, 21, 20, 22, 24, 5]), r.choice([0, 1]))
 
 
 def an_op(r, refs):
@@ -123,9 +125,11 @@ def an_op(r, refs):
 
 def gen_session(r, name, kind=None):
     kind = kind or r.choice(["H", "H", "H", "V", "HV", "HV", "SD", "GR", "AN", "MIX", "VGADD", "SDMETA", "SDU", "HDEL",
-                             "REFWRAP", "REFWRAP"])
+                             "REFWRAP", "REFWRAP", "VGATTR"])
     if kind == "REFWRAP":
         return gen_refwrap(r, name)
+    if kind == "VGATTR":
+        return gen_vgattr(r, name)
     if kind == "DFSD":
         return {"name": name, "kind": kind, "ndds": 16, "base": ["dfsd %s %d" % (r.choice(["3x4", "5", "2x3"]), r.randrange(1, 30000))],
                 "ops": [sd_op(r, []) if r.random() < 0.7 else sdmeta_op(r, [])]}
@@ -228,9 +232,43 @@ def gen_session(r, name, kind=None):
                 else:
                     g = r.choice(olds + hls)
                     ops.insert(r.randrange(len(ops) + 1), "get %s %s" % (g[1], g[2]))
+    if kind in FULL_KINDS and r.random() < 0.35:
+        # a request that must be refused and leave no trace: a second descriptor under a name that is in use
+        olds2 = [o.split() for o in base if o.split()[0] == "put"]
+        if len(olds2) >= 1 and ops:
+            a, b = r.choice(olds2), r.choice(olds2)
+            ops.insert(r.randrange(len(ops)), "dupx %s %s %s %s" % (a[1], a[2], b[1], b[2]))
     if kind in FULL_KINDS and len(ops) >= 2 and r.random() < 0.3:
         ops.insert(r.randrange(1, len(ops)), "sync")
+    if kind not in ("SD", "SDMETA", "SDU", "DFSD") and r.random() < 0.3:
+        # the access mode of the session's Hopen: DFACC_ALL (7, "open, create it if it is not there") or DFACC_WRITE (2)
+        ops.insert(0, "mode %d" % r.choice([7, 7, 2]))
     return {"name": name, "kind": kind, "ndds": ndds, "base": base, "ops": ops}
+
+
+def gen_vgattr(r, name):
+    """attributes added to EXISTING Vgroups that already carry attributes with related names (prefixes of each other,
+    same number type): a new attribute is a new Vdata behind the end of the file, the Vgroup record is relocated"""
+    k = r.choice([1, 2, 3])
+    base, ops, names = [], [], []
+    for i in range(k):
+        base.append("vg ag%d ac %d %d" % (i, r.choice([0, 2]), r.randrange(1, 30000)))
+    have = {}
+    for i in range(k):
+        for nm, nt in r.sample([("scale", 5), ("off", 24), ("x", 5), ("valid", 24)], r.choice([1, 2, 3])):
+            base.append("vgattr %d %s %d %d" % (i, nm, nt, r.randrange(1, 30000)))
+            have.setdefault(i, set()).add(nm)
+    if r.random() < 0.5:
+        base.append(v_op(r, names) if r.random() < 0.5 else "put 800 300 0102")
+    pool = [("scale_factor", 5), ("offset", 24), ("xy", 5), ("valid_range", 24), ("sc", 5), ("units", 24), ("scale", 5), ("off", 24)]
+    for _ in range(r.choice([1, 2, 3])):
+        i = r.randrange(k)
+        cand = [(nm, nt) for nm, nt in pool if nm not in have.get(i, set())]
+        ext = [(nm, nt) for nm, nt in cand if any(nm.startswith(h) and nm != h for h in have.get(i, set()))]
+        nm, nt = r.choice(ext if ext and r.random() < 0.8 else cand)   # mostly: a stored name is a proper prefix of the new one
+        have.setdefault(i, set()).add(nm)
+        ops.append("vgattr %d %s %d %d" % (i, nm, nt, r.randrange(1, 30000)))
+    return {"name": name, "kind": "VGATTR", "ndds": r.choice([4, 16]), "base": base, "ops": ops}
 
 
 def gen_refwrap(r, name):
@@ -304,7 +342,7 @@ def parse_replay(lines):
 def classify_ops(ops):
     """kind implied by the operations themselves (used for replays / shrunk sessions)"""
     ks = set(o.split()[0] for o in ops)
-    if ks & {"sds", "gr", "an", "vgadd", "sdsnd", "sdgattr", "sdsu", "del", "rw", "vsattr"}:
+    if ks & {"sds", "gr", "an", "vgadd", "sdsnd", "sdgattr", "sdsu", "del", "rw", "vsattr", "vgattr"}:
         return "META"
     return "HV"
 
@@ -375,6 +413,10 @@ def model_ops(s):
             out.append("putn %s %d %s" % (t[1], 0 if t[2] == "-" else len(t[2]) // 2, t[2]))
         elif t[0] == "del":
             out.append(o)
+        elif t[0] == "mode":
+            continue
+        elif t[0] in ("dupx", "dup"):
+            out.append("dup %s %s %s %s" % (t[1], t[2], t[3], t[4]))
         elif t[0] == "rw":
             out.append("rw %s %s %d %s" % (t[1], t[2], 0 if t[3] == "-" else len(t[3]) // 2, t[3]))
         elif t[0] == "get":
@@ -596,7 +638,7 @@ def run(ctx):
     ncorpus = len(sessions)
     n = 80 if ctx.tier == "quick" else 900
     kinds_cycle = ["H", "REFWRAP", "H", "V", "HV", "SD", "GR", "AN", "MIX", "SDMETA", "SDU", "VGADD", "HDEL", "REFWRAP",
-                   "DFSD", "SDMETA", "HDEL", "REFWRAP", "H", "HV", "V", "SDU", "SD", "MIX", "REFWRAP", "SDMETA"]
+                   "DFSD", "SDMETA", "HDEL", "REFWRAP", "H", "HV", "V", "SDU", "SD", "MIX", "REFWRAP", "VGATTR", "GR", "VGATTR", "MIX"]
     for i in range(n):
         sessions.append(gen_session(r, "g%d" % i, kind=kinds_cycle[i % len(kinds_cycle)] if i < 2 * len(kinds_cycle) else None))
     import time
